@@ -101,6 +101,7 @@ func TestC01RawRoundTrip(t *testing.T) {
 	rec.Require("v1", "v2-unsigned", "v2-signed", "len255", "len0", "id>=65536", "unsigned-with-leftover-signature-fields")
 	_, ardu := dialects(t)
 	evid.Check(t, rec, evid.N(150000, 600000), func(t *rapid.T) {
+		readBufSize = 512
 		f := gen.RawFrame(t, gen.FrameOpts{AnyFlags: rapid.IntRange(0, 9).Draw(t, "anyflags") == 0})
 		// with a dialect configured, ids outside the dialect stay raw: pick the configuration
 		var drw *dialect.ReadWriter
@@ -283,6 +284,7 @@ func TestC01Unrepresentable(t *testing.T) {
 	rec.Require("v1-id>255", "v2-id>=2^24", "payload>255")
 	common, _ := dialects(t)
 	evid.Check(t, rec, evid.N(20000, 100000), func(t *rapid.T) {
+		readBufSize = 512
 		f := gen.RawFrame(t, gen.FrameOpts{})
 		kind := rapid.SampledFrom([]string{"v1-id>255", "v2-id>=2^24", "payload>255"}).Draw(t, "kind")
 		switch kind {
@@ -350,6 +352,7 @@ func TestC01StreamRoundTrip(t *testing.T) {
 	rec := evid.New(t, "C01", "2..12 generated frames (biased to long payloads) written by one frame.Writer into one byte stream == concatenation of the reference layouts; one frame.Reader reads the stream back in generated chunkings and must return each frame equal field for field; non-trivial = stream longer than the reader's 512-byte window; distinct by hash of the stream")
 	rec.Require("longer-than-window")
 	evid.Check(t, rec, evid.N(15000, 80000), func(t *rapid.T) {
+		drawBufSize(t)
 		n := rapid.IntRange(2, 12).Draw(t, "n")
 		w := &recWriter{}
 		fw := &frame.Writer{ByteWriter: w}
